@@ -304,7 +304,7 @@ def run_case(ctx, case, rng=None):
 
 def run(ctx):
     rng = ctx.rng(1)
-    ncase = 400 if ctx.tier == "quick" else 3000
+    ncase = 400 if ctx.tier == "quick" else 10000
     for it in range(ncase):
         if ctx.out_of_time():
             ctx.notes.append(f"stopped at case {it} (time budget)")
